@@ -182,7 +182,7 @@ def custom_condition(
                 )
 
             else:
-                if operator == "!=":
+                if operator in {"!=", "!=="}:
                     if isinstance(scoreboard_player.value, int):
                         raise ValueError("scoreboard_player.value is int")
                     return Condition(
